@@ -60,6 +60,10 @@ class BaseServer(socketserver.BaseServer):
         """
         if self.context:
             if sock.recv(1, socket.MSG_PEEK) == b"\x16":
+                if self.config.has_option("pygopherd", "timeout"):
+                    # The SO_RCVTIMEO / SO_SNDTIMEO set in server_bind() only make
+                    # the TLS layer wait again; it honours the socket's own timeout.
+                    sock.settimeout(int(self.config.get("pygopherd", "timeout")))
                 return self.context.wrap_socket(sock, server_side=True)
         return sock
 
